@@ -126,30 +126,7 @@ def render(toks, rng, comments, newline="\n"):
     return splgen.render(toks, rng, comments=comments, newline=newline)
 
 
-def parameter_named_like_a_later_parameters_type(prog, rng):
-    """a valid variant: an earlier PARAMETER gets the name of the type (a declared type or `int`) that a LATER parameter of
-    the same procedure is declared with - parameter types are resolved in the global table, so the later parameter keeps its
-    type; (variable declarations resolve their type with the locals first, so none of them may mention that type).  None when
-    no procedure qualifies."""
-    import navlib
-    cands = []
-    for pi, d in enumerate(prog):
-        if d[0] != "proc":
-            continue
-        _, pname, params, vars_, stmts = d
-        local = [n for _, n, _ in params] + [n for n, _ in vars_]
-        for j in range(1, len(params)):
-            for tn in navlib._tnames(params[j][2]):
-                if tn in local or any(tn in navlib._tnames(ty) for _, ty in vars_):
-                    continue
-                for i in range(j):
-                    cands.append((pi, params[i][1], tn))
-    if not cands:
-        return None
-    pi, old, new = rng.choice(cands)
-    prog = list(prog)
-    prog[pi] = navlib.rename_local(prog[pi], old, new)
-    return prog
+parameter_named_like_a_later_parameters_type = None  # moved to tools/navlib.py
 
 
 def gen_docs(ctx, total):
@@ -166,7 +143,7 @@ def gen_docs(ctx, total):
             # procedure - parameter types are resolved globally, variable types with the locals entered so far
             prog, _ = navlib.shadow_variants(prog, rng, p=0.6)
         if rng.random() < 0.35:
-            prog = parameter_named_like_a_later_parameters_type(prog, rng) or prog
+            prog = navlib.parameter_named_like_a_later_parameters_type(prog, rng) or prog
         progs.append(prog)
         toks = splgen.flatten(prog)
         docs.append(Doc("valid", render(toks, rng, 0.08, rng.choice(["\n", "\n", "\r\n"])), [], prog=prog))
